@@ -181,6 +181,7 @@ func lemmaCmpCompAntisym(a, b Component) {
 // C14-trans (components): <= is transitive, and the composition is strict if one of the steps is.
 //
 //@ func lemmaCmpCompTrans
+//@   option relative-index
 //@   ensures specCmpComp(a, b) <= 0 && specCmpComp(b, c) <= 0 ==> specCmpComp(a, c) <= 0
 //@   ensures specCmpComp(a, b) <= 0 && specCmpComp(b, c) <= 0 && (specCmpComp(a, b) < 0 || specCmpComp(b, c) < 0) ==> specCmpComp(a, c) < 0
 func lemmaCmpCompTrans(a, b, c Component) {
